@@ -679,7 +679,13 @@ fn exec_stmt(w: &Rc<World>, env: &mut Vec<H>, run: &mut Run, s: &Stmt) {
         Stmt::Dispose(h) => {
             let (hnd, seq) = node_handle(w, env, *h);
             w.sh.borrow_mut().kill(seq);
-            hnd.dispose();
+            // every way of disposing a node: through its NodeHandle, or through the typed handle (`Signal::dispose`,
+            // `ReadSignal::dispose` — also what a memo, a selector or a mapped list hands out)
+            match (&env[*h], api_form(w) % 2) {
+                (H::Sig(sg, _), 1) => sg.dispose(),
+                (H::Memo(m, _), 1) => m.dispose(),
+                _ => hnd.dispose(),
+            }
             // context values go last: they are still there while the cleanups run and the children are disposed
             w.sh.borrow_mut().provided[seq].clear();
             // what descendants created while they re-ran in the middle of the teardown died with them
